@@ -19,12 +19,12 @@ PROPS = {
                 modes=("dev", "release"), design=["MC_Framing"]),
     "C04": dict(fams=[genfam("fuzz", "fuzz", 1, 1), genfam("chunk-long", "chunk", 1, 1, ["--mode", "long"]),
                       walkfam("inbound", "wake", 160, 2000), walkfam("cancel", "wake", 160, 2000)], modes=("dev", "release"), design=["MC_Phases"]),
-    "C05": dict(fams=[walkfam("ops"), walkfam("mixed", "wake", 160, 3000), walkfam("ops", "sweep", 80, 1000), walkfam("quota", "wake", 160, 2000), walkfam("wakechunk", "wake", 160, 2000), genfam("earlyops", "earlyops", 1, 1), tlcfam("MC_Ops")], design=["MC_Ops"]),
-    "C06": dict(fams=[walkfam("ops"), walkfam("quota", "wake", 160, 3000), walkfam("wake", "wake", 160, 2000), tlcfam("MC_Ops")], design=["MC_Ops"]),
-    "C07": dict(fams=[walkfam("inbound"), walkfam("mixed", "wake", 160, 3000), genfam("backlog", "backlog", 1, 1), genfam("manysids", "manysids", 1, 1), genfam("size", "size", 1, 1), tlcfam("MC_Inbound")], design=["MC_Inbound"]),
+    "C05": dict(fams=[genfam("reasons", "reasons", 1, 1), walkfam("ops"), walkfam("mixed", "wake", 160, 3000), walkfam("ops", "sweep", 80, 1000), walkfam("quota", "wake", 160, 2000), walkfam("wakechunk", "wake", 160, 2000), genfam("earlyops", "earlyops", 1, 1), tlcfam("MC_Ops")], design=["MC_Ops"]),
+    "C06": dict(fams=[genfam("reasons", "reasons", 1, 1), walkfam("ops"), walkfam("quota", "wake", 160, 3000), walkfam("wake", "wake", 160, 2000), tlcfam("MC_Ops")], design=["MC_Ops"]),
+    "C07": dict(fams=[walkfam("inbound"), walkfam("mixed", "wake", 160, 3000), genfam("backlog", "backlog", 1, 1), genfam("manysids", "manysids", 1, 1), genfam("size", "size", 1, 1), genfam("endings", "endings", 1, 1), tlcfam("MC_Inbound")], design=["MC_Inbound"]),
     "C08": dict(fams=[walkfam("inbound"), walkfam("mixed", "wake", 160, 3000), walkfam("wakechunk", "wake", 240, 3000), genfam("reuse", "reuse", 1, 1), genfam("manysids", "manysids", 1, 1), genfam("crossid", "crossid", 1, 1), genfam("oneread", "oneread", 1, 1), tlcfam("MC_Inbound")], design=["MC_Inbound"]),
     "C09": dict(fams=[walkfam("inbound", "wake", 320, 5000), genfam("q2seq", "q2seq", 1, 1), genfam("resume", "resume", 1, 1), genfam("reuse", "reuse", 1, 1), genfam("manysids", "manysids", 1, 1), genfam("crossid", "crossid", 1, 1), tlcfam("MC_Inbound")], design=["MC_Inbound"]),
-    "C10": dict(fams=[walkfam("quota", "wake", 320, 5000), walkfam("ops", "wake", 160, 2000), walkfam("cancel", "wake", 160, 2000), genfam("quota-fill", "quotafill", 1, 1), genfam("reconn", "reconn", 1, 1), tlcfam("MC_Ops"), tlcfam("MC_Reconn")], design=["MC_Ops", "MC_Reconn"]),
+    "C10": dict(fams=[genfam("reasons", "reasons", 1, 1), walkfam("quota", "wake", 320, 5000), walkfam("ops", "wake", 160, 2000), walkfam("cancel", "wake", 160, 2000), genfam("quota-fill", "quotafill", 1, 1), genfam("reconn", "reconn", 1, 1), tlcfam("MC_Ops"), tlcfam("MC_Reconn")], design=["MC_Ops", "MC_Reconn"]),
     "C11": dict(fams=[genfam("wrap", "wrap", 1, 1), genfam("sidwrap", "sidwrap", 1, 1), genfam("earlyops", "earlyops", 1, 1), genfam("badopts", "badopts", 1, 1), genfam("q0wrap", "q0wrap", 1, 1), genfam("threads", "threads", 1, 1), walkfam("ops", "wake", 80, 1000), tlcfam("MC_Ids"), tlcfam("MC_Early")], design=["MC_Ids", "MC_Early"]),
     "C12": dict(fams=[genfam("size", "size", 1, 1), genfam("reconn", "reconn", 1, 1), tlcfam("MC_Ops"), tlcfam("MC_Reconn"), tlcfam("MC_Early")], design=["MC_Ops", "MC_Reconn", "MC_Early"]),
     "C13": dict(fams=[walkfam("life", "wake", 400, 6000), genfam("first", "first", 1, 1), genfam("endings", "endings", 1, 1), genfam("reuse", "reuse", 1, 1), tlcfam("MC_Life")], design=["MC_Life"]),
